@@ -27,16 +27,25 @@ def bound_symbols(reg: RegModel) -> dict[FuncInfo, set[str]]:
     return out
 
 
-def half_up_helper(model: Model) -> FuncInfo:
-    """The repo's half-up rounding helper: round_number, checked to quantize HALF_UP/HALF_DOWN."""
+def half_up_helper(model: Model, strict: bool = True) -> FuncInfo:
+    """The repo's half-up rounding helper: round_number, checked to quantize HALF_UP/HALF_DOWN.
+    With strict=False the caller checks `helper_problem()` itself and reports a violation."""
     from ..engine.srcmodel import AnalysisError
     h = model.module('elementpath.helpers').toplevel_function('round_number')
     if h is None:
         raise AnalysisError('helpers.round_number vanished')
+    if strict:
+        problem = helper_problem(h)
+        if problem:
+            raise AnalysisError(problem)
+    return h
+
+
+def helper_problem(h: FuncInfo) -> str:
     consts = {n.value for n in walk_local(h.node) if isinstance(n, ast.Constant)}
     if not {'ROUND_HALF_UP', 'ROUND_HALF_DOWN'} <= consts:
-        raise AnalysisError('helpers.round_number no longer rounds with ROUND_HALF_UP / '
-                            'ROUND_HALF_DOWN: the half-up helper must be re-identified')
+        return ('helpers.round_number no longer rounds with Decimal.quantize ROUND_HALF_UP / '
+                'ROUND_HALF_DOWN')
     # sign test: HALF_UP for positive numbers, HALF_DOWN otherwise (towards +inf on ties)
     ok = False
     for n in walk_local(h.node):
@@ -48,6 +57,5 @@ def half_up_helper(model: Model) -> FuncInfo:
                        for s in n.orelse for c in ast.walk(s))
             ok = ok or (up and down)
     if not ok:
-        raise AnalysisError('helpers.round_number: HALF_UP for positive / HALF_DOWN otherwise '
-                            'shape not recognised')
-    return h
+        return 'helpers.round_number: HALF_UP for positive / HALF_DOWN otherwise not recognised'
+    return ''
